@@ -56,8 +56,9 @@ func (fv *FnVerifier) permuteSlice(st *State, s string, elemT types.Type, pos to
 		pir := "(" + piInv + " " + rel + ")"
 		fv.q.assume(fmt.Sprintf("(forall ((%s %s)) (! (=> %s (and %s (= (%s %s) %s) (= (select %s %s) %s))) :pattern ((select %s %s))))",
 			a, isort, inWin, in(pr), piInv, pr, rel, row, a, at(oldRow, pr), row, a))
-		fv.q.assume(fmt.Sprintf("(forall ((%s %s)) (! (=> %s (and %s (= (%s %s) %s) (= %s (select %s %s)))) :pattern ((select %s %s))))",
-			a, isort, inWin, in(pir), pi, pir, rel, at(row, pir), oldRow, a, oldRow, a))
+		// (the inverse direction keyed on reads of the OLD row is not asserted: together with the axiom above it forms a
+		// matching loop; the relative perminv axiom above remains for surjectivity arguments)
+		_ = pir
 	}
 	// outside the window nothing changes
 	j := fv.q.fresh("j")
